@@ -45,8 +45,23 @@ def loop (ignoreErrors : Bool) : List Pkg → Bool → List String → List Stri
       | .absent | .different => loop ignoreErrors ps someError' (outPath p :: w) u
       | .unwritable => { exit := 1, written := w.reverse, untouched := u.reverse }   -- "could not write output"
 
+/-- the loop as it is since repair c3c81c9: `seen` holds the output paths already taken in this run; a package whose
+output path is taken is reported (non-zero exit) and NOT written ('.', '-' and '_' all map to '_', so `m/a-b` and `m/a_b`
+share `m/a_b.v`).  `loop` above is this loop when all output paths differ (`Props/C17.loopC_eq_loop`). -/
+def loopC (ignoreErrors : Bool) : List Pkg → Bool → List String → List String → List String → Outcome
+  | [], someError, w, u, _ => { exit := if someError then 1 else 0, written := w.reverse, untouched := u.reverse }
+  | p :: ps, someError, w, u, seen =>
+    if p.hasErr && (!ignoreErrors || p.noOutput) then loopC ignoreErrors ps true w u seen
+    else if seen.contains (outPath p) then loopC ignoreErrors ps true w u seen
+    else
+      let someError' := someError || p.hasErr
+      match p.prior with
+      | .same => loopC ignoreErrors ps someError' w (outPath p :: u) (outPath p :: seen)
+      | .absent | .different => loopC ignoreErrors ps someError' (outPath p :: w) u (outPath p :: seen)
+      | .unwritable => { exit := 1, written := w.reverse, untouched := u.reverse }   -- "could not write output"
+
 def run (patternErr : Bool) (ignoreErrors : Bool) (pkgs : List Pkg) : Outcome :=
   if patternErr then { exit := 1, written := [], untouched := [] }
-  else loop ignoreErrors pkgs false [] []
+  else loopC ignoreErrors pkgs false [] [] []
 
 end GooseVerif.Model.Cmd
